@@ -196,7 +196,7 @@ Fixpoint transpose_n (n : nat) (cols : list (list (list Z))) : list (list (list 
 Record variant := { v_crlf : bool; v_samtab : bool }.
 Definition pinned : variant := {| v_crlf := false; v_samtab := false |}.
 Definition repaired : variant := {| v_crlf := true; v_samtab := true |}.
-Definition current : variant := pinned.
+Definition current : variant := repaired.
 
 Definition drop_empty_last (flds : list (list Z)) : list (list Z) :=
   match rev flds with [] :: r => rev r | _ => flds end.
